@@ -74,6 +74,15 @@ out = {
 for p in g.Productions[1:]:
     out["productions"].append({"n": p.number, "lhs": p.name, "rhs": list(p.prod), "func": p.func, "file": os.path.relpath(p.file, root) if p.file else None, "line": p.line, "prec": list(p.prec) if p.prec else None})
 mro = [c for c in Parser.__mro__ if c is not object]
+import inspect  # noqa: E402
+
+out["mro"] = []
+for c in mro:
+    try:
+        f = os.path.relpath(inspect.getsourcefile(c), root)
+    except TypeError:
+        f = None
+    out["mro"].append({"module": c.__module__, "qualname": c.__qualname__, "file": f})
 for name in dir(inst):
     if not name.startswith("p_") or name == "p_error":
         continue
